@@ -414,12 +414,15 @@ def _fld(fl, R, rng, budget, seed=0, sizes=None, **kw):
         sep = rng.choice([" ", " ", ",", ";", "\t", " | ", "::"])
         d = rng.choice([3, 3, 0, 1, 2, 6, 9])
         headers, inputs, outputs = rng.choice([(True, True, True)] * 3 + [(False, True, True), (True, False, True), (True, True, False), (False, False, True), (False, True, False)])
-        fl.settings.decimals = d
+        early = (j // 3) % 2 == 1      # the exporter object exists before the decimals are configured: the dataset is printed with the decimals in force when it is exported
+        fl.settings.decimals = (d + 2) % 7 if early else d
         exporter = fl.FldExporter(separator=sep, headers=headers, input_values=inputs, output_values=outputs)
+        fl.settings.decimals = d
         ranges = [(iv.minimum, iv.maximum) for iv in e.input_variables]
         R.cases += 1; R.distinct += 1
         mode = j % 3
-        cfg = f"fl.settings.decimals = {d}; x = fl.FldExporter(separator={sep!r}, headers={headers}, input_values={inputs}, output_values={outputs}); "
+        cfg = (f"fl.settings.decimals = {(d + 2) % 7}; x = fl.FldExporter(separator={sep!r}, headers={headers}, input_values={inputs}, output_values={outputs}); fl.settings.decimals = {d}; " if early else
+               f"fl.settings.decimals = {d}; x = fl.FldExporter(separator={sep!r}, headers={headers}, input_values={inputs}, output_values={outputs}); ")
         if mode < 2:
             scope = "EachVariable" if mode == 0 else "AllVariables"
             cap = int(round(90 ** (1.0 / n)))
